@@ -395,12 +395,20 @@ type aliasMap struct {
 }
 
 func (am aliasMap) varAliases(k string) (vals []string) {
-	vals = append(vals, k)
-	if as, ok := am.aliases[k]; ok {
-		for val := range as {
-			vals = append(vals, am.varAliases(val)...)
+	// Variables can be re-assigned in a cycle ({{ $a := $b }}{{ $b := $a }}), visit every name only once.
+	seen := map[string]struct{}{}
+	var walk func(name string)
+	walk = func(name string) {
+		if _, ok := seen[name]; ok {
+			return
+		}
+		seen[name] = struct{}{}
+		vals = append(vals, name)
+		for val := range am.aliases[name] {
+			walk(val)
 		}
 	}
+	walk(k)
 	return vals
 }
 
